@@ -127,7 +127,7 @@ _sched_common_req = [
 ]
 
 contract(
-    TS + "::TaskScenario.schedule", variant="asap-deps", props=["C04", "C06", "C08", "C11"],
+    TS + "::TaskScenario.schedule", variant="asap-deps", props=["C04", "C06", "C07", "C08", "C11"],
     params={"self": Ref("TaskScenario")}, ret=Bool,
     requires=_sched_common_req + [
         ("forward", "attr(self.property, 'forward', self.scenarioIdx) is not None and some(attr(self.property, 'forward', self.scenarioIdx))"),
